@@ -234,6 +234,21 @@ static std::vector<Rows> orthogonal_family(int n)
 			fam.push_back(G);
 		}
 	}
+	// rotations in the planes (i,i+2): checkerboard M (entries with i+j odd vanish, the first sub-diagonal is exactly zero)
+	if(n >= 3)
+		for(int v = 0; v < (mc::thorough() ? 3 : 2); v++)
+		{
+			Rows Q = I;
+			for(int i = 0; i + 2 < n; i += (v == 2 ? 2 : 1))
+			{
+				Rows G	  = I;
+				double th = ang[(i + v) % 4];
+				G[i][i] = std::cos(th); G[i + 2][i + 2] = std::cos(th); G[i][i + 2] = -std::sin(th); G[i + 2][i] = std::sin(th);
+				Q = mul(Q, G);
+				if(v == 1) break;	// a single (0,2) rotation
+			}
+			fam.push_back(Q);
+		}
 	// Householder reflectors of integer vectors
 	for(int v = 0; v < (mc::thorough() ? 5 : 2) && n > 1; v++)
 	{
@@ -285,6 +300,18 @@ int main(int argc, char** argv)
 			check_qr(up, "upper_triangular");
 			check_qr(perm, "signed_permutation");
 			check_qr(transpose(up), "lower_triangular");
+			// nearly upper triangular: the part below the diagonal is a small multiple of a dense pattern (columns that are almost
+			// multiples of e1: a reflector that "has nothing to do" up to 1e-6 ... 1e-15)
+			for(double eps : {1e-6, 1e-9, 1e-12, 1e-15})
+			{
+				Rows g = up;
+				for(int i = 0; i < n; i++)
+					for(int j = 0; j < i; j++) g[i][j] = eps * v[(i * 5 + j * 3 + pat) % 9];
+				check_qr(g, "nearly_upper_triangular");
+				Rows h = dense;
+				for(int i = 1; i < n; i++) h[i][0] = eps * v[(i + pat) % 9];
+				check_qr(h, "first_column_nearly_e1");
+			}
 			for(int sc = 0; sc < 4; sc++)
 			{
 				Rows g = dense;
@@ -310,13 +337,16 @@ int main(int argc, char** argv)
 	std::vector<std::vector<double>> ratios = {{0.5}, {0.8}, {0.1}, {0.3, 0.7}};
 	if(mc::thorough())
 		for(auto r : std::vector<std::vector<double>>{{0.2}, {0.3}, {0.4}, {0.6}, {0.7}, {0.75}, {0.8, 0.1}, {0.1, 0.8}, {0.5, 0.8, 0.2}, {0.65, 0.35}}) ratios.push_back(r);
+	// overall magnitudes of the matrix: the property is scale free ("every symmetric matrix")
+	std::vector<double> tops = {1.0, 40.0, 1e-7, 1e7};
+	if(mc::thorough()) { tops.push_back(1e-30); tops.push_back(1e30); tops.push_back(3e-4); }	// n = 7: products of seven eigenvalues stay representable
 	for(int n = 1; n <= nmax; n++)
 	{
 		auto fam = orthogonal_family(n);
 		for(size_t qi = 0; qi < fam.size(); qi++)
 			for(size_t ri = 0; ri < ratios.size(); ri++)
 				for(int signs = 0; signs < 3; signs++)
-					for(double top : {1.0, 40.0})
+					for(double top : tops)
 					{
 						if(!mc::mine(unit++)) continue;
 						if(mc::out_of_time("C15 eigen")) goto done;
